@@ -30,7 +30,7 @@ static std::string g_config = "?";
 static std::vector<std::string> g_known;       // globs over "target|op|tag"
 static std::vector<std::string> g_known_text;
 
-struct Failure { VpCase c; VpOutcome o; std::string sig; int confirmed; std::string phase; };
+struct Failure { VpCase c; VpOutcome o; std::string sig; int confirmed; std::string phase; std::vector<VpCase> history; };
 struct KnownHit { uint64_t count; VpCase example; VpOutcome o; std::string glob; };
 
 static uint64_t g_evals, g_lanes, g_nontrivial, g_na, g_known_excluded;
@@ -257,8 +257,28 @@ static void add_sample(const VpCase& c, const VpOutcome& o) {
 }
 
 static void finish_now();
+// the Cases executed just before the current one: the history replayed when a failure does not reproduce on its own
+// (state carried from one call to the next: a function-local static, a cache, a register or flag left behind)
+enum { RECENT_CAP = 32 };
+static VpCase g_recent[RECENT_CAP]; static uint64_t g_recent_n = 0;
+static std::vector<VpCase> recent_snapshot() {
+    std::vector<VpCase> h; const uint64_t n = g_recent_n < RECENT_CAP ? g_recent_n : RECENT_CAP;
+    for (uint64_t i = g_recent_n - n; i < g_recent_n; ++i) h.push_back(g_recent[i % RECENT_CAP]);
+    return h;
+}
+static bool fails_after(const std::vector<VpCase>& h, size_t from, const VpCase& c, const std::string& sig, VpOutcome& out) {
+    for (size_t i = from; i < h.size(); ++i) { VpOutcome t; run_raw(h[i], t); }
+    run_raw(c, out);
+    return out.status == 1 && sig_of(c, out) == sig;
+}
+static bool account_inner(const VpCase& c, bool allow_minimise);
 // returns true if the case is acceptable (pass, n/a or known finding)
 static bool account(const VpCase& c, bool allow_minimise = true) {
+    const bool r = account_inner(c, allow_minimise);
+    g_recent[g_recent_n++ % RECENT_CAP] = c;
+    return r;
+}
+static bool account_inner(const VpCase& c, bool allow_minimise) {
     VpOutcome o;
     run_raw(c, o);
     if (o.status == 2) { ++g_na; return true; }
@@ -306,6 +326,17 @@ static bool account(const VpCase& c, bool allow_minimise = true) {
     if (sched) f.confirmed = 3;
     else if (hang) { VpOutcome t; run_raw(f.c, t); f.confirmed = (t.status == 1) ? 3 : 0; }
     else for (int r = 0; r < 3; ++r) { VpOutcome t; run_raw(f.c, t); if (t.status == 1) ++f.confirmed; }
+    if (!sched && !hang && f.confirmed < 3 && g_recent_n) {
+        // not reproducible on its own: replay the Cases that preceded it (twice); the shortest suffix of that history after which the
+        // original Case fails again becomes part of the replay file
+        const std::vector<VpCase> h = recent_snapshot();
+        VpOutcome t;
+        if (fails_after(h, 0, c, sig, t) && fails_after(h, 0, c, sig, t)) {
+            size_t from = 0;
+            for (size_t len = 1; len < h.size(); len *= 2) { VpOutcome u; if (fails_after(h, h.size() - len, c, sig, u) && fails_after(h, h.size() - len, c, sig, u)) { from = h.size() - len; break; } }
+            f.c = c; f.o = t; f.confirmed = 3; f.history.assign(h.begin() + from, h.end()); f.phase = g_phase + "+history";
+        }
+    }
     g_failures.push_back(f);
     if (hang) finish_now();     // every further hanging Case would cost another 10-20 s: report what was found and stop this process
     return false;
@@ -637,6 +668,12 @@ static std::string lanes_json(const uint64_t* v, unsigned n) {
     os << "]"; return os.str();
 }
 
+static std::string history_json(const std::vector<VpCase>& h) {
+    std::ostringstream os; os << "[";
+    for (size_t i = 0; i < h.size(); ++i) os << (i ? "," : "") << "\"" << case_text(h[i]) << "\"";
+    os << "]"; return os.str();
+}
+
 static void write_json(const std::string& path, const std::string& mode, uint64_t seed, double wall) {
     std::ostringstream os;
     os << "{\"property\":\"" << vp_property() << "\",\"config\":\"" << jesc(g_config) << "\",\"mode\":\"" << mode << "\",\"seed\":" << seed
@@ -663,7 +700,7 @@ static void write_json(const std::string& path, const std::string& mode, uint64_
         const Failure& f = g_failures[i];
         unsigned W = g_targets[f.c.target].width;
         os << (i ? "," : "") << "{\"sig\":\"" << jesc(f.sig) << "\",\"phase\":\"" << f.phase << "\",\"msg\":\"" << jesc(f.o.msg) << "\",\"bad_lane\":" << f.o.bad_lane
-           << ",\"confirmed\":" << f.confirmed << ",\"expect\":" << lanes_json(f.o.expect, W) << ",\"actual\":" << lanes_json(f.o.actual, W)
+           << ",\"confirmed\":" << f.confirmed << ",\"history\":" << history_json(f.history) << ",\"expect\":" << lanes_json(f.o.expect, W) << ",\"actual\":" << lanes_json(f.o.actual, W)
            << ",\"case\":" << case_json(f.c) << "}";
     }
     os << "],\"known\":[";
@@ -681,7 +718,7 @@ static void write_json(const std::string& path, const std::string& mode, uint64_
 // ------------------------------------------------------------------------------------------------
 #include <chrono>
 int main(int argc, char** argv) {
-    std::string mode = "list", out = "-", casetext, regress_file;
+    std::string mode = "list", out = "-", casetext, regress_file, history_file;
     uint64_t seed = 1, scale = 100; int tier = 0; uint32_t shard = 0, nshards = 1;
     for (int i = 1; i < argc; ++i) {
         std::string a = argv[i];
@@ -696,6 +733,7 @@ int main(int argc, char** argv) {
         else if (a == "--known") g_known.push_back(next());
         else if (a == "--case") casetext = next();
         else if (a == "--regress") regress_file = next();
+        else if (a == "--history-file") history_file = next();
         else if (a == "--max-failures") g_max_failures = strtoull(next().c_str(), 0, 10);
         else if (a == "--ub-violation") g_ub_is_violation = atoi(next().c_str()) != 0;
         else if (a == "--enum-stride") g_enum_stride = strtoull(next().c_str(), 0, 10);
@@ -718,7 +756,9 @@ int main(int argc, char** argv) {
         VpCase c;
         if (!case_from_text(casetext, c)) { fprintf(stderr, "bad --case\n"); return 2; }
         int fails = 0, na = 0; VpOutcome o;
-        for (int r = 0; r < 3; ++r) { run_raw(c, o); if (o.status == 1) ++fails; if (o.status == 2) ++na; }
+        std::vector<VpCase> hist;
+        if (!history_file.empty()) { std::ifstream hf(history_file.c_str()); std::string line; while (std::getline(hf, line)) { VpCase h; if (!line.empty() && case_from_text(line, h)) hist.push_back(h); } }
+        for (int r = 0; r < 3; ++r) { for (size_t i = 0; i < hist.size(); ++i) { VpOutcome t; run_raw(hist[i], t); } run_raw(c, o); if (o.status == 1) ++fails; if (o.status == 2) ++na; }
         if (na) { printf("REPLAY not-applicable in this configuration\n"); return 3; }
         printf("REPLAY %s fails=%d/3 sig=%s msg=%s\n", fails ? "FAIL" : "PASS", fails, fails ? sig_of(c, o).c_str() : "-", o.msg);
         if (fails) { printf("  case=%s\n  expect=%s\n  actual=%s\n", case_json(c).c_str(), lanes_json(o.expect, g_targets[c.target].width).c_str(), lanes_json(o.actual, g_targets[c.target].width).c_str()); }
